@@ -290,6 +290,53 @@ func awkwardNilStack(other bool) stackage.Stack {
 	return stackage.And().Push([]*int{&one, &two}, [2]*int{&one, &two}, map[string]*int{"k": &one})
 }
 
+// awkwardPairs: ONE leaf on each side (IsEqual stops at the first difference, so every awkward meeting gets its own pair);
+// each pair is compared as a Stack element and as a Condition expression, both ways round
+func awkwardPairs() [][2]any {
+	var np *int
+	var nm *map[string]int
+	one, two := 1, 2
+	return [][2]any{
+		{[]*int{&one, &two}, []*int{np, &two}},
+		{[2]*int{&one, &two}, [2]*int{&one, np}},
+		{map[string]*int{"k": &one}, map[string]*int{"k": np}},
+		{map[string]int{"a": 1}, nm},  // a map against a typed nil pointer to the same map type
+		{map[string]int{"a": 1}, &nm}, // ... against a pointer to such a nil pointer
+		{map[string]any{"m": map[string]int{"a": 1}}, map[string]any{"m": nm}},
+		{map[string]int{"a": 1, "b": 2}, map[string]int{"a": 1, "c": 2}},
+		{map[float64]int{math.NaN(): 1}, map[float64]int{math.NaN(): 1}},
+		{eqStructP{A: 1, C: "c"}, eqStructX{A: 1, C: "c"}},
+		{[]any{1, nil}, []any{nil, 1}},
+		{privStruct{1, "x"}, &privStruct{1, "x"}},
+	}
+}
+
+// pairMakers / pairArg: the receivers and arguments of the awkward-pair events, by name (used by the sweep and by replays)
+func pairMakers() []recvMaker {
+	var out []recvMaker
+	for i, pr := range awkwardPairs() {
+		for dir := 0; dir < 2; dir++ {
+			x := pr[dir]
+			out = append(out, recvMaker{fmt.Sprintf("pair%d-%d-stack", i, dir), "Stack", func() any { return stackage.And().Push(x) }},
+				recvMaker{fmt.Sprintf("pair%d-%d-cond", i, dir), "Condition", func() any { return stackage.Cond("k", stackage.Eq, x) }})
+		}
+	}
+	return out
+}
+
+func pairArg(recv string) (argSet, bool) {
+	var i, dir int
+	var kind string
+	if n, _ := fmt.Sscanf(strings.ReplaceAll(recv, "-", " "), "pair%d %d %s", &i, &dir, &kind); n != 3 || i >= len(awkwardPairs()) || dir > 1 {
+		return argSet{}, false
+	}
+	y := awkwardPairs()[i][1-dir]
+	if kind == "stack" {
+		return argSet{"(stack holding the other leaf)", []reflect.Value{reflect.ValueOf(stackage.And().Push(y))}}, true
+	}
+	return argSet{"(condition holding the other leaf)", []reflect.Value{reflect.ValueOf(stackage.Cond("k", stackage.Eq, y))}}, true
+}
+
 func awkwardLeafStack(other bool) stackage.Stack {
 	var np *int
 	one := 1
@@ -455,6 +502,14 @@ func liveStackMakers() []recvMaker {
 			s.SetValidityPolicy(func(...any) error { return nil })
 			return s.Push("m", "n")
 		}},
+		recvMaker{"AND-stored-err", "Stack", func() any { // an error recorded earlier: looking at it (Err) is a query like any other
+			s := stackage.And().Push("a", stackage.Cond("k", stackage.Eq, "v"))
+			s.SetErr(sentinelErr)
+			return s
+		}},
+		recvMaker{"OR-holding-ro-stack", "Stack", func() any {
+			return stackage.Or().Push("x", stackage.And().Push("a").SetReadOnly(true))
+		}},
 		recvMaker{"AND-awkward-leaves", "Stack", func() any { return awkwardLeafStack(false) }},
 		recvMaker{"AND-awkward-maps", "Stack", func() any { return awkwardMapStack(false) }},
 		recvMaker{"AND-awkward-nils", "Stack", func() any { return awkwardNilStack(false) }},
@@ -492,6 +547,18 @@ func liveCondMakers() []recvMaker {
 			return stackage.Cond("k", userOp("~="), 5).SetEncap(`"`).SetParen(true).SetID("cid").SetCategory("cc").SetAuxiliary(stackage.Auxiliary{"z": 2})
 		}},
 		{"cond-initonly", "Condition", func() any { var c stackage.Condition; c.Init(); return c }},
+		// writable itself, but HOLDING a read-only Stack (native / alias): the Condition's own flag decides what may be done to it
+		{"cond-holding-ro-stack", "Condition", func() any {
+			return stackage.Cond("k", stackage.Eq, stackage.And().Push("a", "b").SetReadOnly(true))
+		}},
+		{"cond-holding-ro-alias", "Condition", func() any {
+			return stackage.Cond("k", stackage.Ge, AStack(stackage.Or().Push("a").SetReadOnly(true)))
+		}},
+		{"cond-stored-err", "Condition", func() any {
+			c := stackage.Cond("k", stackage.Eq, "v")
+			c.SetErr(sentinelErr)
+			return c
+		}},
 		{"cond-awkward-leaf", "Condition", func() any { return stackage.Cond("k", stackage.Eq, eqStructP{A: 1, C: "c"}) }},
 		{"cond-failing-validity", "Condition", func() any {
 			c := stackage.Cond("k", stackage.Eq, "v")
@@ -531,26 +598,26 @@ func setRO(x any) any {
 // ---- events ---------------------------------------------------------------
 
 type SweepEvent struct {
-	Ev      string   `json:"ev"` // call | reset
-	Mode    string   `json:"mode"`
-	Recv    string   `json:"recv"`
-	Typ     string   `json:"typ"`
-	Method  string   `json:"method"`
-	Args    string   `json:"args"`
-	Panic   string   `json:"panic"` // "" or the message
-	PreLive string   `json:"prelive"`
-	PreRO   string   `json:"prero"`
-	PreErr  string   `json:"preerr"`
-	Pre     string   `json:"pre"`
-	PostLive string  `json:"postlive"`
-	PostRO  string   `json:"postro"`
-	PostErr string   `json:"posterr"`
-	Post    string   `json:"post"`
-	NonZero []string `json:"nonzero"` // indices ("0","1") of non-zero results
-	ErrRes  string   `json:"errres"`  // "true" if an error-typed result was non-nil
-	Again   string   `json:"again"`   // query repeated: "same" | "differs" | "n/a"
-	Health  string   `json:"health"`  // post-call usability probe: "ok" | message | "n/a"
-	Twin    string   `json:"twin"`    // a SECOND handle to the same instance, taken before the call: "same" | "changed" afterwards
+	Ev       string   `json:"ev"` // call | reset
+	Mode     string   `json:"mode"`
+	Recv     string   `json:"recv"`
+	Typ      string   `json:"typ"`
+	Method   string   `json:"method"`
+	Args     string   `json:"args"`
+	Panic    string   `json:"panic"` // "" or the message
+	PreLive  string   `json:"prelive"`
+	PreRO    string   `json:"prero"`
+	PreErr   string   `json:"preerr"`
+	Pre      string   `json:"pre"`
+	PostLive string   `json:"postlive"`
+	PostRO   string   `json:"postro"`
+	PostErr  string   `json:"posterr"`
+	Post     string   `json:"post"`
+	NonZero  []string `json:"nonzero"` // indices ("0","1") of non-zero results
+	ErrRes   string   `json:"errres"`  // "true" if an error-typed result was non-nil
+	Again    string   `json:"again"`   // query repeated: "same" | "differs" | "n/a"
+	Health   string   `json:"health"`  // post-call usability probe: "ok" | message | "n/a"
+	Twin     string   `json:"twin"`    // a SECOND handle to the same instance, taken before the call: "same" | "changed" afterwards
 }
 
 func holderOf(x any) reflect.Value {
@@ -630,8 +697,8 @@ func health(x any) (h string) {
 }
 
 type sweeper struct {
-	enc    *json.Encoder
-	events int
+	enc     *json.Encoder
+	events  int
 	methods map[string]bool
 }
 
@@ -914,7 +981,9 @@ func cmdSweep(args []string) {
 	defer w.Flush()
 	sw := &sweeper{enc: json.NewEncoder(w), methods: map[string]bool{}}
 	rng := rand.New(rand.NewSource(*seed))
-	reset := func(rm recvMaker) { _ = sw.enc.Encode(SweepEvent{Ev: "reset", Mode: *mode, Recv: rm.name, Typ: rm.typ, NonZero: []string{}}) }
+	reset := func(rm recvMaker) {
+		_ = sw.enc.Encode(SweepEvent{Ev: "reset", Mode: *mode, Recv: rm.name, Typ: rm.typ, NonZero: []string{}})
+	}
 
 	switch *mode {
 	case "ronly":
@@ -1009,6 +1078,22 @@ func cmdSweep(args []string) {
 				}
 			}
 		}
+		isEq := func(x any) (reflect.Method, bool) {
+			for _, m := range methodsOf(x) {
+				if m.Name == "IsEqual" {
+					return m, true
+				}
+			}
+			return reflect.Method{}, false
+		}
+		for _, prm := range pairMakers() {
+			if m, ok := isEq(prm.mk()); ok {
+				if a, ok2 := pairArg(prm.name); ok2 {
+					reset(prm)
+					sw.call("awkward", prm, holderOf(prm.mk()), m, a, true, false)
+				}
+			}
+		}
 	case "query":
 		makers := append(liveStackMakers(), liveCondMakers()...)
 		for _, rm := range makers {
@@ -1083,6 +1168,7 @@ func RunSweepReplay(r *SweepReplay) (bool, string) {
 	}
 	var rm *recvMaker
 	all := append(append(liveStackMakers(), liveCondMakers()...), deadMakers()...)
+	all = append(all, pairMakers()...)
 	for i := range all {
 		if all[i].name == first.Recv {
 			rm = &all[i]
@@ -1120,7 +1206,13 @@ func RunSweepReplay(r *SweepReplay) (bool, string) {
 			limit = 40
 		}
 		var as *argSet
+		if a, ok := pairArg(first.Recv); ok && ev.Method == "IsEqual" {
+			as = &a
+		}
 		for _, a := range argSets(methodType(*m), anysFor(ev.Mode), limit) {
+			if as != nil {
+				break
+			}
 			if a.desc == ev.Args {
 				a := a
 				as = &a
@@ -1161,7 +1253,6 @@ func RunSweepReplay(r *SweepReplay) (bool, string) {
 
 var lastDiff string
 
-
 func replayAsArgument(want SweepEvent) (bool, string) {
 	f, _ := os.CreateTemp("", "sweepreplay")
 	defer os.Remove(f.Name())
@@ -1193,7 +1284,6 @@ func replayAsArgument(want SweepEvent) (bool, string) {
 	return false, "event not found on re-execution"
 }
 
-
 func scribble(x any, depth int) {
 	if l, ok := x.([]any); ok && depth < 6 {
 		for i := range l {
@@ -1204,7 +1294,6 @@ func scribble(x any, depth int) {
 		}
 	}
 }
-
 
 func replayPkg(want SweepEvent) (bool, string) {
 	f, _ := os.CreateTemp("", "sweepreplay")
